@@ -74,7 +74,8 @@ def run_text(row):
     return bad
 
 
-LEVEL_NAME = {1: "f%d", 2: "<lambda>", 3: "go", 4: "inner%d", 5: "gen%d", 6: "rec%d", 7: "modgen%d"}
+LEVEL_NAME = {1: "f%d", 2: "<lambda>", 3: "go", 4: "inner%d", 5: "gen%d", 6: "rec%d", 7: "modgen%d", 8: "deep%d"}
+NFR = {6: 2, 8: 7}        # frames a level contributes (default 1)
 
 
 def chain_source(prog, exc):
@@ -104,6 +105,8 @@ def chain_source(prog, exc):
         elif k == 7:
             lines += ["", "_nxt%d = %s" % (idx, nxt), "exec(compile('def modgen%d():\\n    return _nxt%d()', '<string>', 'exec'), globals())" % (idx, idx),
                       "%s = modgen%d" % (name, idx)]
+        elif k == 8:
+            lines += ["", "def deep%d(n=6):" % idx, "    if n:", "        return deep%d(n - 1)" % idx, "    return %s()" % nxt, "%s = deep%d" % (name, idx)]
         else:
             lines += ["", "def rec%d(n=1):" % idx, "    if n:", "        return rec%d(0)" % idx, "    return %s()" % nxt, "%s = rec%d" % (name, idx)]
         nxt = name
@@ -154,11 +157,11 @@ def run_chain(row, tmpdir, counter, reuse=False):
         want = []
         for idx, k in enumerate(prog, 1):
             nm = LEVEL_NAME[k] % idx if "%" in LEVEL_NAME[k] else LEVEL_NAME[k]
-            for _ in range(2 if k == 6 else 1):
+            for _ in range(NFR.get(k, 1)):
                 want.append((nm, k not in (5, 7)))
         want = [("entry", True)] + want + [("raiser", True)]
         model_got = [(g[2], bool(g[3])) for g in got[1:]]
-        if model_got != want or [list(x) for x in [(f[0], f[1]) for f in row["frames"]]] != [[k, k not in (5, 7)] for k in prog for _ in range(2 if k == 6 else 1)]:
+        if model_got != want or [list(x) for x in [(f[0], f[1]) for f in row["frames"]]] != [[k, k not in (5, 7)] for k in prog for _ in range(NFR.get(k, 1))]:
             bad.append(("chain", "frames-differ-from-model", {"got": model_got, "model": want}))
         interp = "".join(traceback.format_exception(et, ev, tb))
         if strip_markers(formatted) != strip_markers(interp):
